@@ -80,6 +80,8 @@ def subclasses_walk(schema, p):
 def disc_variants(schema, p, wf, sup):
     """the classes a discriminator over p can produce (with a field: the tagged ones)"""
     vs = subclasses_walk(schema, p) + ([p] if sup else [])
+    # (a class that is itself a dispatcher - nested class-level discriminator - is abstract: no instances of it)
+    vs = [v for v in vs if not (schema["classes"][v].get("disc") and v != p) and not (v == p and schema["classes"][p].get("disc"))]
     return [v for v in vs if has_tag(schema, v)] if wf else vs
 
 
@@ -305,6 +307,9 @@ def class_source(schema) -> str:
             cfg.append("code_generation_options = [" + ", ".join(opts) + "]")
         elif k["own_ctx"] is not None:
             cfg.append("code_generation_options = " + ("[ADD_SERIALIZATION_CONTEXT]" if k["own_ctx"] else "[]"))
+        elif k.get("disc") and k["parent"] is not None:
+            # a Config of its own (for the nested discriminator) replaces the inherited one: restate the inherited option
+            cfg.append("code_generation_options = " + ("[ADD_SERIALIZATION_CONTEXT]" if ctx_on(schema, c) else "[]"))
         if k.get("disc") == "nofield":
             cfg.append('discriminator = Discriminator(include_subtypes=True)')
         elif k.get("disc"):
